@@ -15,6 +15,7 @@ Inductive lit :=
 | LInt (z : Z)
 | LNum (f : fval)               (* Literal.number(repr of a float): a decimal numeral, or the bare word inf *)
 | LStr (s : ustr)               (* Literal.string: rendered by Lex.render_string *)
+| LStrNul (s : ustr)            (* CONCAT of the string literals of the NUL-free pieces of s and CHR(0) between them *)
 | LCastStr (s : ustr) (t : sty) (* CAST('s' AS t) *)
 | LHex (b : list N)             (* FROM_HEX('..') *)
 | LDate (d : Z)                 (* CAST('<isoformat>' AS DATE) *)
@@ -30,18 +31,18 @@ Definition s_NaN : ustr := [78; 97; 78]%N.
 Definition s_inf (neg : bool) : ustr := if neg then [45; 105; 110; 102]%N else [105; 110; 102]%N.
 
 (** branches of Column._lit *)
-Inductive lact := AStruct | AArray | ATuple | AMap | ANanCast (t : sty) | AInfCast | ATsCast.
+Inductive lact := AStruct | AArray | ATuple | AMap | ANanCast (t : sty) | AInfCast | ATsCast | AStrNul.
 (** branches of functions.lit *)
-Inductive fact := FStrLit | FInfStr.
+Inductive fact := FStrLit | FStrNested | FInfStr.
 
 Definition lact_eqb (a b : lact) : bool :=
   match a, b with
-  | AStruct, AStruct | AArray, AArray | ATuple, ATuple | AMap, AMap | AInfCast, AInfCast | ATsCast, ATsCast => true
+  | AStruct, AStruct | AArray, AArray | ATuple, ATuple | AMap, AMap | AInfCast, AInfCast | ATsCast, ATsCast | AStrNul, AStrNul => true
   | ANanCast x, ANanCast y => sty_eqb x y
   | _, _ => false
   end.
 Definition fact_eqb (a b : fact) : bool :=
-  match a, b with FStrLit, FStrLit | FInfStr, FInfStr => true | _, _ => false end.
+  match a, b with FStrLit, FStrLit | FStrNested, FStrNested | FInfStr, FInfStr => true | _, _ => false end.
 
 (** list combinators with the mapped function as a parameter outside the [fix], so that they can be used under
     a structural [Fixpoint] on the nested value types *)
@@ -130,6 +131,7 @@ Section Lit.
     | Some (ANanCast t) => LCastStr s_NaN t
     | Some AInfCast => match v with PFloat (FInf neg) => LCastStr (s_inf neg) TDouble | _ => LErr end
     | Some ATsCast => match v with PTs us None => LTs us | PTs us (Some _) => LTsTz us | _ => LErr end
+    | Some AStrNul => match v with PStr s => LStrNul s | _ => LErr end
     | None =>
         match v with
         | PList _ | PTuple _ | PRow _ | PDict _ => LErr   (* exp.convert would recurse with convert, not _lit; unreachable when the chain is right *)
@@ -141,6 +143,7 @@ Section Lit.
   Definition lit_top (v : pyval) : lit :=
     match first_match fch (cls_of v) (flav_of v) true false with
     | Some FStrLit => match v with PStr s => LStr s | _ => LErr end
+    | Some FStrNested => match v with PStr _ => lit_nested v | _ => LErr end     (* return Column._lit(value) *)
     | Some FInfStr => match v with PFloat (FInf neg) => LStr (s_inf neg) | _ => LErr end
     | None => match v with PStr _ => LErr (* Column('text') parses a column name *) | _ => lit_nested v end
     end.
@@ -160,6 +163,7 @@ Fixpoint std_lit_nested (v : pyval) : lit :=
   | PDict kv => LMap (map (fun p => std_lit_nested (fst p)) kv) (map (fun p => std_lit_nested (snd p)) kv)
   | PFloat FNaN => LCastStr s_NaN TDouble
   | PFloat (FInf neg) => LCastStr (s_inf neg) TDouble
+  | PStr s => if nul_free s then LStr s else LStrNul s
   | _ => convert_leaf v
   end.
 
@@ -173,12 +177,13 @@ Definition std_lact (c : pycls) (fl : flav) : option lact :=
   match c with
   | CRow => Some AStruct | CList | CSet => Some AArray | CTuple => Some ATuple | CDict => Some AMap
   | CDatetime => Some ATsCast
-  | CFloat => match fl with FlNan => Some (ANanCast TDouble) | FlInf => Some AInfCast | FlPlain => None end
+  | CStr => match fl with FlNul => Some AStrNul | _ => None end
+  | CFloat => match fl with FlNan => Some (ANanCast TDouble) | FlInf => Some AInfCast | _ => None end
   | _ => None
   end.
 Definition std_fact (c : pycls) (fl : flav) : option fact :=
   match c with
-  | CStr => Some FStrLit
+  | CStr => Some FStrNested
   | CFloat => match fl with FlInf => Some FInfStr | _ => None end
   | _ => None
   end.
@@ -186,7 +191,7 @@ Definition std_fact (c : pycls) (fl : flav) : option fact :=
 Definition oeqb {A} (eqb : A -> A -> bool) (a b : option A) : bool :=
   match a, b with Some x, Some y => eqb x y | None, None => true | _, _ => false end.
 
-Definition all_flav := [FlPlain; FlNan; FlInf].
+Definition all_flav := [FlPlain; FlNan; FlInf; FlNul].
 Definition lit_chain_ok (lch : chain lact) : bool :=
   forallb (fun c => forallb (fun fl => oeqb lact_eqb (first_match lch c fl true false) (std_lact c fl)) all_flav) all_cls.
 Definition litfn_chain_ok (fch : chain fact) : bool :=
@@ -222,7 +227,7 @@ Proof.
   - intro z; cbn [lit_nested]; rewrite K; reflexivity.
   - intro f; cbn [lit_nested]; rewrite K; destruct f; reflexivity.
   - intro f; cbn [lit_nested]; rewrite K; reflexivity.
-  - intro s; cbn [lit_nested]; rewrite K; reflexivity.
+  - intro s; cbn [lit_nested]; rewrite K; cbn [cls_of flav_of std_lact std_lit_nested]; destruct (nul_free s); reflexivity.
   - intro b; cbn [lit_nested]; rewrite K; reflexivity.
   - intro d; cbn [lit_nested]; rewrite K; reflexivity.
   - intros us tz; cbn [lit_nested]; rewrite K; destruct tz; reflexivity.
@@ -249,8 +254,7 @@ Proof.
     specialize (Hf _ (in_all_cls (cls_of v))). rewrite forallb_forall in Hf.
     apply oeqb_fact. apply Hf. apply in_all_flav. }
   rewrite K. destruct v; cbn [cls_of flav_of std_fact std_lit_top]; try (apply lit_nested_is_std; assumption).
-  - destruct f; cbn [flav_of std_fact std_lit_top]; try reflexivity; apply lit_nested_is_std; assumption.
-  - reflexivity.
+  destruct f; cbn [flav_of std_fact std_lit_top]; try reflexivity; apply lit_nested_is_std; assumption.
 Qed.
 
 Lemma cell_lit_is_std lch fch : lit_chain_ok lch = true -> litfn_chain_ok fch = true ->
@@ -337,6 +341,8 @@ Section Engine.
     e_num : forall b e, eleaf (LNum (FFin b e)) = Some (if e then DDbl (FFin b e) else DDec (FFin b e));
     (* = Lex.string_roundtrip read as a statement about the engine: a NUL-free literal denotes its content *)
     e_str : forall s, nul_free s = true -> eleaf (LStr s) = Some (DStr s);
+    (* CONCAT of the NUL-free pieces with CHR(0) between them denotes the string *)
+    e_strnul : forall s, eleaf (LStrNul s) = Some (DStr s);
     e_nan : eleaf (LCastStr s_NaN TDouble) = Some (DDbl FNaN);
     e_inf : forall neg, eleaf (LCastStr (s_inf neg) TDouble) = Some (DDbl (FInf neg));
     e_hex : forall b, eleaf (LHex b) = Some (DBlob b);
@@ -516,12 +522,11 @@ Fixpoint nodup_keys {A} (fs : list (ustr * A)) : bool :=
 
 Definition has_field {A} (k : ustr) (fs : list (ustr * A)) : bool := existsb (fun p => ueqb (fst p) k) fs.
 
-(** values the theorem speaks about: NUL-free strings, 64-bit ints, any float, non-empty structs with distinct
+(** values the theorem speaks about: any string, 64-bit ints, any float, non-empty structs with distinct
     field names that are not the pair key/value; tuples, dicts and Decimals are not in the property's list *)
 Fixpoint supp (v : pyval) : bool :=
   match v with
   | PInt z => int64 z
-  | PStr s => nul_free s
   | PList l => forallb supp l
   | PRow fs => negb (match fs with [] => true | _ => false end) && nodup_keys fs
                && negb (has_field s_key fs && has_field s_value fs)
@@ -589,7 +594,7 @@ Section Roundtrip.
     - intros z H. apply (e_int _ _ _ ENV). exact H.
     - intros f H. destruct f as [|n|b e]; [apply (e_nan _ _ _ ENV)|apply (e_inf _ _ _ ENV)|apply (e_num _ _ _ ENV)].
     - intros f H. discriminate.
-    - intros s H. apply (e_str _ _ _ ENV). exact H.
+    - intros s _. cbn [std_lit_nested eval D0]. destruct (nul_free s) eqn:E; [apply (e_str _ _ _ ENV); exact E|apply (e_strnul _ _ _ ENV)].
     - intros b _. apply (e_hex _ _ _ ENV).
     - intros d _. apply (e_date _ _ _ ENV).
     - intros us tz _. destruct tz; [apply (e_tstz _ _ _ ENV)|apply (e_ts _ _ _ ENV)].
@@ -770,6 +775,7 @@ Definition ref_eleaf (l : lit) : option dbval :=
   | LNum (FFin b e) => Some (if e then DDbl (FFin b e) else DDec (FFin b e))
   | LNum _ => None                                  (* the bare words inf / nan are column references *)
   | LStr s => if nul_free s then Some (DStr s) else None
+  | LStrNul s => Some (DStr s)
   | LCastStr s TFloat => if ueqb s s_NaN then Some (DFlt FNaN) else None     (* the unrepaired NaN literal *)
   | LCastStr s TDouble => if ueqb s s_NaN then Some (DDbl FNaN)
                           else if ueqb s (s_inf false) then Some (DDbl (FInf false))
@@ -1377,3 +1383,43 @@ Definition ref_round32 (tbl : list (Z * (Z * bool))) (f : fval) : fval :=
                 end
   | _ => f
   end.
+
+(* ------------------------------------------------------------------------------------------------ *)
+(** * The string literals written for a str value: the value itself, or its NUL-free pieces *)
+
+Fixpoint split0_aux (cur : ustr) (s : ustr) : list ustr :=      (* cur = the current piece, reversed *)
+  match s with
+  | [] => match cur with [] => [] | _ => [rev cur] end
+  | c :: t => if (c =? 0)%N then (match cur with [] => [] | _ => [rev cur] end) ++ split0_aux [] t
+              else split0_aux (c :: cur) t
+  end.
+Definition split0 (s : ustr) : list ustr := split0_aux [] s.
+
+Definition str_pieces (s : ustr) : list ustr := if nul_free s then [s] else split0 s.
+
+Lemma nul_free_app a b : nul_free (a ++ b) = nul_free a && nul_free b.
+Proof. induction a as [|c t IH]; [reflexivity|]. cbn [app nul_free]. rewrite IH. apply andb_assoc. Qed.
+
+Lemma nul_free_rev a : nul_free (rev a) = nul_free a.
+Proof.
+  induction a as [|c t IH]; [reflexivity|]. cbn [rev nul_free]. rewrite nul_free_app, IH. cbn [nul_free].
+  rewrite andb_true_r. apply andb_comm.
+Qed.
+
+Lemma split0_aux_nul_free : forall s cur, nul_free cur = true -> forallb nul_free (split0_aux cur s) = true.
+Proof.
+  induction s as [|c t IH]; intros cur H.
+  - cbn [split0_aux]. destruct cur; [reflexivity|]. cbn [forallb]. rewrite nul_free_rev, H. reflexivity.
+  - cbn [split0_aux]. destruct (c =? 0)%N eqn:E.
+    + rewrite forallb_app. apply andb_true_iff. split; [|exact (IH [] eq_refl)].
+      destruct cur; [reflexivity|]. cbn [forallb]. rewrite nul_free_rev, H. reflexivity.
+    + apply IH. cbn [nul_free]. rewrite E, H. reflexivity.
+Qed.
+
+(** no string literal written for a str value contains U+0000 -- whatever the value *)
+Theorem str_pieces_nul_free : forall s, forallb nul_free (str_pieces s) = true.
+Proof.
+  intro s. unfold str_pieces. destruct (nul_free s) eqn:E.
+  - cbn [forallb]. rewrite E. reflexivity.
+  - apply split0_aux_nul_free. reflexivity.
+Qed.
